@@ -33,12 +33,12 @@ for d in sorted(glob.glob(os.path.join(V, 'seeded', 'C*_*'))):
         verdict = 'MISSED'
     rows.append('| %s | %s | %s | %s |' % (sid, what[:170], needs[:170], verdict))
 out = ['## 9. Seeded changes and which checks catch them', '',
-       'Two hundred changes to eqsig written by sub-agents that saw only the text of one property (never `/verif`), each',
+       'Two hundred and forty changes to eqsig written by sub-agents that saw only the text of one property (never `/verif`), each',
        'confirmed in a scratch worktree: applies to `/repo` HEAD, the 63 tests pass with it, its demonstration fails with it and passes',
-       'without it (`harness/confirm_seeds.sh`; `seeded/<id>/{patch.diff, demo.py, meta.json}`). Five rounds of two per property: `_1`, `_2`',
+       'without it (`harness/confirm_seeds.sh`; `seeded/<id>/{patch.diff, demo.py, meta.json}`). Six rounds of two per property: `_1`, `_2`',
        '(first session), `_3`, `_4` ("a mechanism different from the ones already used"), `_5`, `_6` ("a KIND of mechanism not in the list at',
        'all: boundary conditions, index arithmetic, equality branches, option combinations, ordering effects, rounding shortcuts, default',
-       'propagation"), `_7`, `_8` and `_9`, `_10` (given the list of clauses already targeted: "another clause, entry point or mechanism"). Each was run against the quick tier of its property\'s check in a scratch worktree through `EQSIG_REPO`',
+       'propagation"), `_7`..`_12` (three rounds given the list of clauses already targeted: "another clause, entry point or mechanism"). Each was run against the quick tier of its property\'s check in a scratch worktree through `EQSIG_REPO`',
        '(`harness/sweep_seeds.sh`, results in `seeded/RESULTS.tsv`); the table gives the first reporting site of the final sweep. After',
        'round 2, 15 of 80 were first missed; after round 3, 10 of the 40 new ones; after round 4, 9 of the 40 new ones (C04_8, C06_8, C07_8, C08_7,',
        'C08_8, C09_7, C11_7, C12_7, C17_7), and ten more were caught by a broken source tie only, with no failing input. All are caught now (C07_8 as a broken',
@@ -50,7 +50,11 @@ out = ['## 9. Seeded changes and which checks catch them', '',
        'four more were caught by a broken source tie only; added for them: a second `AccSignal.response_series` call after the periods were changed through',
        'the setter (C01), two batches in a row sharing xi, dt, count and end periods, and shift invariance of the spectra on records longer than 2^15',
        'samples (C02), very weak half spectra for `fas2values` (C06), `trap=np.True_` (C08), record lengths at which a float-step `np.arange` miscounts',
-       '(C09), the explicit fractions 0.0 and 1.0 (C10), resample → `reset_values` → resample on one object (C14). What was added for the earlier rounds (see 7.3):',
+       '(C09), the explicit fractions 0.0 and 1.0 (C10), resample → `reset_values` → resample on one object (C14). After round 6, 4 of the 40 new ones were missed (C02_12,',
+       'C06_12, C07_12, C08_11; added: integer period lists with a leading zero, the constructor source array re-used by the caller, read → add_constant /',
+       'add_series / reset_values → read on the structural smoothing block, in-place mutators that call clear_cache directly) and 13 were caught by a',
+       'broken source tie only (`translator` / `proof:` rows below with `no-failing-input-found`): miss rate per round 19 %, 25 %, 22 %, 10 %, 10 %. What was',
+       'added for the earlier rounds (see 7.3):',
        'object read → change → read-again histories (C03, C07, C08, C09, C10), purity/repeatability wrappers (`core.guarded_pure`) and',
        'non-float64 storage (C01, C02, C06, C08, C09, C11, C13, C17, C18, C19), long-record × many-period batches and object-level refinement',
        '(C02), non-integer refinement factors (C03), weak-motion amplitudes (C08, C09, C19), list/tuple containers (C08), record lengths k·1000',
